@@ -477,6 +477,8 @@ var vJSONJunk = []string{`null`, `{}`, `[]`, `""`, `0`, `{"resourceLogs":null}`,
 func (r *vRun) jsonByteCases() {
 	n := vBudget(400, 30)
 	rng := r.rng
+	// one document with a string that is not valid UTF-8, on every run (known finding C08-JSON-INVALIDUTF8)
+	r.jsonDecodeCase(r.sigs[0], []byte("{\"resourceLogs\":[{\"schemaUrl\":\"a\xffb\"}]}"), "handwritten")
 	for i := 0; i < n && len(r.jpool) > 0; i++ {
 		d := r.jpool[rng.Intn(len(r.jpool))]
 		sg := d.sg
